@@ -518,6 +518,15 @@ def run_text(st, text, widths, origin, with_ir=True):
         ser = serialize(tree, st.pindex)
         if ser is not None:
             st.model_ops.append(("FMT %d %s" % (k, ser), want, text, k))
+            if i == 0 and want != "none":
+                # round 3: C11_retokenize_checked — the model evaluates the theorem's hypotheses on its
+                # rows and answers the token sequence they imply; expected: what the REAL tokenizer
+                # makes of the REAL formatter's output
+                res = tokenizer.tokenize(out_real, "")
+                if not res[1]:
+                    leaves = ",".join("%s:%s" % (t.symbol.encode("utf-8").hex(), t.text.encode("utf-8").hex())
+                                      for t in res[0])
+                    st.model_ops.append(("RETOK %d %s" % (k, ser), "ok " + (leaves or "-"), text, k))
     try:
         format_emb.format_emboss_parse_tree(tree, format_emb.Config(), used)
     except Exception:  # noqa: BLE001  (already reported by the oracle above)
@@ -1045,7 +1054,31 @@ def run(tier):
         lines = [op for op, _, _, _ in st.model_ops] + [op for op, _, _ in sops]
         answers = model.ask(lines, timeout=1800)
         dis = 0
+        retok = {"retokenize_ops": 0, "retokenize_theorem_applies": 0, "retokenize_hypothesis_fails": 0,
+                 "retokenize_disagrees": 0}
         for (op, want, text, k), ans in zip(st.model_ops, answers):
+            if op.startswith("RETOK "):
+                retok["retokenize_ops"] += 1
+                if ans == want:
+                    retok["retokenize_theorem_applies"] += 1
+                    continue
+                if ans == "hyp-fails":
+                    # the hypotheses of the theorem do not hold on the model's rows: no verdict (the
+                    # oracle has re-tokenized the real output anyway)
+                    retok["retokenize_hypothesis_fails"] += 1
+                    continue
+                retok["retokenize_disagrees"] += 1
+                dis += 1
+                if dis <= 5:
+                    toks, tree = parse(text)
+                    verdict, detail, _ = spec_check(text, toks, tree, k)
+                    chk.violation("input" if verdict != "ok" else "correspondence", {
+                        "input": text, "indent_width": k, "model": ans[:400], "observed": want[:400],
+                        "oracle_on_real_code": "%s: %s" % (verdict, detail),
+                        "theorem_or_correspondence": "model_c11 RETOK (retokTree: C11_retokenize_checked) vs "
+                                                     "tokenizer.tokenize(format_emboss_parse_tree(...))"},
+                        found_input=(verdict != "ok"))
+                continue
             if ans != want:
                 dis += 1
                 if dis <= 5:
@@ -1076,7 +1109,8 @@ def run(tier):
                         found_input=False)
         chk.extra["t_model_s"] = round(time.time() - t1, 1)
         chk.extra["traces_validated_against_impl"] = len(lines)
-        chk.extra["fmt_ops"] = len(st.model_ops)
+        chk.extra["fmt_ops"] = len(st.model_ops) - retok["retokenize_ops"]
+        chk.extra["retokenize"] = retok
         chk.extra["sanity_ops"] = len(sops)
         chk.extra["sanity_answers"] = {a: sum(1 for _, w, _ in sops if w.split()[0] == a)
                                        for a in sorted(set(w.split()[0] for _, w, _ in sops))}
